@@ -916,3 +916,31 @@ CORPUS.append({'id': 'S/C03-N-silent', 'props': ['C01'], 'rule': None, 'expect':
 CORPUS.append({'id': 'S/C15-M-silent', 'props': ['C17'], 'rule': None, 'expect': 'silent', 'edits': [], 'patch': 'seeded/C15-M/patch.diff'})
 CORPUS.append({'id': 'S/C13-M-silent', 'props': ['C14', 'C16'], 'rule': None, 'expect': 'silent', 'edits': [], 'patch': 'seeded/C13-M/patch.diff'})
 CORPUS.append({'id': 'S/C05-M-silent', 'props': ['C02'], 'rule': None, 'expect': 'silent', 'edits': [], 'patch': 'seeded/C05-M/patch.diff'})
+
+# round 9 (API evolution / maintainability changes, O/P).  Not reported by their own property: C04-P (a store skipped when the
+# new value compares equal: reported by C12.R1), C06-O (repr of the tree in a debug f-string: RecursionError on deep trees; C02
+# answers ANALYSIS-ERROR for the unclassified logger call), C07-O (pretty() dispatching on numbers.Number, which bool satisfies),
+# C07-P (lambda values as instances of a Closure class: reported by C02.R3, anchors of C01/C07/C10 vanish), C08-P (floor/ceil to a
+# step: v / step rounds a long literal first), C16-P (a budget of 0 normalised to the default: reported by C01.R4/R5) and the three
+# that introduce PLY lexer states (C15-P, C18-O, C20-P: C11.R2 reports, the token-level checks answer ANALYSIS-ERROR).
+P('C01-O', 'C01', 'C01.R4'); P('C01-P', 'C01', 'C01.R4')
+P('C02-O', 'C02', 'C02.R5'); P('C02-P', 'C02', 'C02.R4')
+P('C03-O', 'C03', 'C03.R3'); P('C03-P', 'C03', 'C03.R4')
+P('C04-O', 'C04', 'C04.R4'); P('C04-P', 'C12', 'C12.R1')
+P('C05-O', 'C05', 'C05.R2'); P('C05-P', 'C05', 'C05.R1')
+P('C06-P', 'C06', 'C06.R9')
+P('C07-P', 'C02', 'C02.R3')
+P('C08-O', 'C08', 'C08.R2'); P('C08-P', 'C04', 'C04.R1')
+P('C09-O', 'C09', 'C09.R1'); P('C09-P', 'C09', 'C09.R2')
+P('C10-O', 'C10', 'C10.R2'); P('C10-P', 'C10', 'C10.R6')
+P('C11-O', 'C11', 'C11.R3'); P('C11-P', 'C11', 'C11.R1')
+P('C12-O', 'C12', 'C12.R1'); P('C12-P', 'C12', 'C12.R2')
+P('C13-O', 'C13', 'C13.R1'); P('C13-P', 'C13', 'C13.R3')
+P('C14-O', 'C14', 'C14.R6'); P('C14-P', 'C14', 'C14.R7')
+P('C15-O', 'C15', 'C15.R5'); P('C15-P', 'C11', 'C11.R2')
+P('C16-O', 'C16', 'C16.R7'); P('C16-P', 'C01', 'C01.R4')
+P('C17-O', 'C17', 'C17.R8'); P('C17-P', 'C17', 'C17.R8')
+P('C18-O', 'C11', 'C11.R2'); P('C18-P', 'C18', 'C18.R5')
+P('C19-O', 'C19', 'C19.R1'); P('C19-P', 'C19', 'C19.R1')
+P('C20-O', 'C20', 'C20.R2'); P('C20-P', 'C11', 'C11.R2')
+CORPUS.append({'id': 'S/C16-O-silent', 'props': ['C20'], 'rule': None, 'expect': 'silent', 'edits': [], 'patch': 'seeded/C16-O/patch.diff'})   # a subclass with its own __str__ is not what p_error raises
